@@ -405,6 +405,10 @@ class Recorder(object):
         return False
 
 
+def _short(v):
+    return str(v) if abs(v) < 1 << 64 else "%s2^%d.." % ("-" if v < 0 else "", abs(v).bit_length() - 1)
+
+
 def check_recorded_call(call):
     """-> None when the recorded call is within its documented bounds and equals the reference sampler on the
     bytes it consumed; otherwise (tag, text)."""
@@ -426,8 +430,8 @@ def check_recorded_call(call):
         return ("consumed-fewer-bytes-than-a-rejection-sampler",
                 "%s returned after consuming only %d bytes; the reference rejection sampler needs more" % (name, len(data)))
     if not lo <= res <= hi:
-        return ("out-of-range", "%s returned a value outside its documented interval (result-lo=%d, hi-result=%d)"
-                % (desc, res - lo, hi - res))
+        return ("out-of-range", "%s returned a value outside its documented interval (result-lo=%s, hi-result=%s)"
+                % (desc, _short(res - lo), _short(hi - res)))
     if exp != res:
         return ("differs-from-reference-rejection-sampler",
                 "%s returned a value different from the plain rejection sampler on the same %d bytes" % (desc, len(data)))
